@@ -1,0 +1,30 @@
+//go:build verif
+
+// Contracts for the deductive verifier in /verif (govc). Comment-only.
+
+package models
+
+//@ # ---- shard assignment model (C18) -------------------------------------------------------------
+//@ predicate inReplicasV(r Replica, id NodeID) bool = exists(i, 0, len(r.Replicas), r.Replicas[i] == id)
+//@ predicate inReplicas(r *Replica, id NodeID) bool = exists(i, 0, len(r.Replicas), r.Replicas[i] == id)
+//@ predicate distinctReplicas(r *Replica) bool = forall(i, 0, len(r.Replicas), forall(j, 0, len(r.Replicas), i != j ==> r.Replicas[i] != r.Replicas[j]))
+//@ func Replica.Contain
+//@   prop C18
+//@   arith math
+//@   ensures result == inReplicasV(r, nodeID)
+//@   loop 1 invariant forall(k, 0, rangeindex + 1, r.Replicas[k] != nodeID)
+//@ end
+//@ func ShardAssignment.AddReplica
+//@   prop C18
+//@   arith math
+//@   requires s.Shards != nil && all(k, "ShardID", has(s.Shards, k) ==> s.Shards[k] != nil)
+//@   requires has(s.Shards, shardID) ==> distinctReplicas(s.Shards[shardID])
+//@   modifies *
+//@   ensures[present] has(s.Shards, shardID) && s.Shards[shardID] != nil && inReplicas(s.Shards[shardID], replicaID)
+//@   ensures[distinct] distinctReplicas(s.Shards[shardID])
+//@   ensures[grows_by_new_node_only] (old(has(s.Shards, shardID)) && !old(inReplicas(s.Shards[shardID], replicaID))) ==> len(s.Shards[shardID].Replicas) == old(len(s.Shards[shardID].Replicas)) + 1
+//@   ensures[existing_node_not_added_twice] (old(has(s.Shards, shardID)) && old(inReplicas(s.Shards[shardID], replicaID))) ==> len(s.Shards[shardID].Replicas) == old(len(s.Shards[shardID].Replicas))
+//@   ensures[new_shard_gets_one] !old(has(s.Shards, shardID)) ==> len(s.Shards[shardID].Replicas) == 1
+//@   ensures[other_shards_untouched] all(k, "ShardID", k != shardID ==> (has(s.Shards, k) == old(has(s.Shards, k)) && s.Shards[k] == old(s.Shards[k])))
+//@   ensures[all_nonnil] all(k, "ShardID", has(s.Shards, k) ==> s.Shards[k] != nil)
+//@ end
